@@ -154,7 +154,7 @@ func (c *SumCopyCommand) sumCopyItem(item string, tow io.Writer) error {
 		return nil
 	}
 
-	if err := updateFileDataWithPointsList(destDB, srcPlDif, now); err != nil {
+	if err := copyDifferentPoints(destDB, srcTsList, srcPlDif, true, c.From, until, now); err != nil {
 		return err
 	}
 
